@@ -1,4 +1,4 @@
 SPECIFICATION TSpec
-CONSTANTS Dev = {"NaNNotReflexive", "SqlNumericLiteralViaF64"}
+CONSTANTS Dev = {"SqlNumericLiteralViaF64"}
 POSTCONDITION Accepted
 CHECK_DEADLOCK FALSE
